@@ -16,7 +16,7 @@ from . import dom
 from . import vmrules as R
 from .facts import AnalysisBroken
 from .linksym import LinkSym, show, NULL
-from .util import callers_of, calls_in, field_writes
+from .util import callers_of, calls_in, every_path_calls, field_writes
 
 LEVEL = 'other'
 EXPLANATION = ('Preservation obligations of the attachment forest, checked at each function that writes a parent/child/sibling link: '
@@ -153,6 +153,25 @@ def listops(run, fx):
                          're-appended / the chain behind it is cut)' % sorted(set(calls)))
             continue
         if isfalse:
+            # completeness: when the walk ran off the end of the sibling chain, every node it passed was compared with ap --
+            # a chain member that is never compared cannot be removed (its attachment survives the detach)
+            this_ = ('sym', 'this')
+            skipped = None
+            if ls.is_null(st, ap) is False and not ls.same(st, this_, ap) and ls.is_null(st, ('init', this_, 'm_child')) is False:
+                c = ('init', this_, 'm_child')
+                for depth_ in range(8):
+                    nul = ls.is_null(st, c)
+                    if nul is not False:
+                        break           # end of the chain (True) or beyond what this path looked at (None)
+                    if not any((ls.same(st, x, c) and ls.same(st, y, ap)) or (ls.same(st, y, c) and ls.same(st, x, ap)) for x, y in st.neqs):
+                        skipped = (depth_, c)
+                        break
+                    c = ('init', c, 'm_sibling')
+            if skipped:
+                run.violated('LISTOPS', inst, fn.where(), 'Slot::removeChild reports "not a child" on a path where child #%d of the sibling chain (%s) exists but was never '
+                             'compared with the slot to remove: that child cannot be detached and stays on this parent\'s list while its attachedTo changes' %
+                             (skipped[0] + 1, show(skipped[1])))
+                continue
             if tw:
                 run.violated('LISTOPS', inst, tw[0][3], 'removeChild returns false but wrote %s' % [(show(o), f, show(v)) for o, f, v, l in tw])
             else:
@@ -284,7 +303,12 @@ def detach(run, vm):
         run.held('DETACH', 'children released before reuse', fs.where(), 'while (firstChild()) loop dominates the re-construction', False)
     else:
         run.violated('DETACH', 'children released before reuse', fs.where(), 'the slot is re-constructed without first releasing its children')
-    # PUT_COPY
+    put_copy_links(run, vm, 'DETACH')
+
+
+def put_copy_links(run, vm, RULE):
+    """PUT_COPY overwrites a live slot with memcpy: what identifies the slot in the stream and in the attachment tree must be put back
+    on every path (shared with C03: a surviving `deleted` flag lets collectGarbage free a slot that is still linked)"""
     pc = vm.handlers['put_copy']
     mc = [e for e in calls_in(pc, 'memcpy') if 'graphite2::Slot *' in (pc.strip(e['args'][0]).get('t') or '') or 'sizeof' in pc.render(pc.N(e['args'][2])) or pc.strip_all_casts(e['args'][2]).get('v', 0) > 40]
     slotcpy = [e for e in mc if pc.render(pc.strip_all_casts(e['args'][0])) in ('reg.is',)]
@@ -294,9 +318,9 @@ def detach(run, vm):
     g1 = any('attachedTo()' in x[0] and x[1] == '==' and x[2] == '0' for x in f)
     g2 = any('firstChild()' in x[0] and x[1] == '==' and x[2] == '0' for x in f)
     if g1 and g2:
-        run.held('DETACH', 'PUT_COPY refuses attached slots', pc.loc(slotcpy[0]), 'whole-slot copy only when the target has no parent and no children')
+        run.held(RULE, 'PUT_COPY refuses attached slots', pc.loc(slotcpy[0]), 'whole-slot copy only when the target has no parent and no children')
     else:
-        run.violated('DETACH', 'PUT_COPY refuses attached slots', pc.loc(slotcpy[0]), 'PUT_COPY overwrites a slot that is attached / has attachments (guards: no parent %s, no children %s): '
+        run.violated(RULE, 'PUT_COPY refuses attached slots', pc.loc(slotcpy[0]), 'PUT_COPY overwrites a slot that is attached / has attachments (guards: no parent %s, no children %s): '
                      'its parent and children keep pointing at links that were overwritten' % (g1, g2))
     sb = pc.block_of[slotcpy[0]['i']]
     after = [e for e in calls_in(pc) if pc.block_of[e['i']] == sb and pc.pos_of[e['i']] > pc.pos_of[slotcpy[0]['i']] or sb in pc.dominators()[pc.block_of[e['i']]]]
@@ -308,10 +332,28 @@ def detach(run, vm):
         ff = [x[:3] for x in dom.facts_at(pc, e['i'])]
         if any('attachedTo()' in x[0] and x[1] == '!=' and x[2] == '0' for x in ff) and 'attachedTo()' in pc.render(pc.deref(e['obj']), resolve=True):
             rok = True
-    if fcn and nsn and rok:
-        run.held('DETACH', 'PUT_COPY rebuilds the tree links', pc.loc(slotcpy[0]), 'firstChild(NULL), nextSibling(NULL), attachedTo()->child(is) after the copy')
+    # ... and on every path: both copied pointers are dropped after the copy, the sibling pointer before the slot joins its parent's
+    # child list (child() appends at the end of the list: a stale sibling pointer would splice another family in), and the
+    # flags of the source (deleted / copied) do not survive in the live slot
+    is_call = lambda name, nullarg=False, val=None: (lambda e: (e.get('fq') or '').endswith(name) and e.get('args') and
+                                                      (not nullarg or pc.is_null(e['args'][0])) and
+                                                      (val is None or pc.strip_all_casts(e['args'][0]).get('v') == val) and
+                                                      pc.render(pc.deref(e['obj']), resolve=True) == 'reg.is')
+    allpaths = {}
+    for what, pr in (('firstChild(NULL)', is_call('Slot::firstChild', True)), ('nextSibling(NULL)', is_call('Slot::nextSibling', True)),
+                     ('markCopied(false)', is_call('Slot::markCopied', val=0)), ('markDeleted(false)', is_call('Slot::markDeleted', val=0))):
+        allpaths[what] = every_path_calls(pc, slotcpy[0], pr)
+    for e in reg:
+        allpaths['nextSibling(NULL) before parent->child(is) at line %s' % e.get('ln')] = every_path_calls(pc, slotcpy[0], is_call('Slot::nextSibling', True), until_elem=e)
+    badp = {k_: v_ for k_, v_ in allpaths.items() if v_ is not True}
+    if fcn and nsn and rok and badp:
+        k_ = sorted(badp)[0]
+        run.violated(RULE, 'PUT_COPY rebuilds the tree links', pc.loc(slotcpy[0]), 'after the whole-slot copy into the live slot there is a path that does not execute %s '
+                     '(blocks %s): the slot keeps a pointer or flag that belongs to the slot it was copied from' % (k_, badp[k_]))
+    elif fcn and nsn and rok:
+        run.held(RULE, 'PUT_COPY rebuilds the tree links', pc.loc(slotcpy[0]), 'firstChild(NULL), nextSibling(NULL), attachedTo()->child(is) after the copy')
     else:
-        run.violated('DETACH', 'PUT_COPY rebuilds the tree links', pc.loc(slotcpy[0]), 'after the whole-slot copy PUT_COPY must drop the copied child/sibling pointers and register '
+        run.violated(RULE, 'PUT_COPY rebuilds the tree links', pc.loc(slotcpy[0]), 'after the whole-slot copy PUT_COPY must drop the copied child/sibling pointers and register '
                      'the slot with the copied parent: firstChild(NULL) %s, nextSibling(NULL) %s, parent->child(is) %s' % (fcn, nsn, rok))
 
 
